@@ -5,6 +5,9 @@ HERE = os.path.dirname(os.path.abspath(__file__))
 props = [json.loads(l) for l in open(os.path.join(HERE, "properties.jsonl"))]
 
 CLAIMED = {
+ "C01": dict(cat="other", technique="abstract interpretation of time_step per configuration -> op trace -> symbolic store stage definitions; stage-by-stage normal-form equality with the documented operator sequence; structural recognition of the Poisson chain; clock rule",
+             text="For every configuration (forcing, free stream, zone width, filter type/order, Poisson solver; scalar/vector passive transport) the step is exactly the documented operator sequence: operands, prefactors as rational functions of dt, dx, nu, rho, interior/ring/zone regions, Poisson stage wired to the current vorticity, velocity = curl(psi)/(2dx) + free stream, forcing zero on return, time += dt once after the step. Decides the structural clauses; floating-point agreement with an independent reference implementation is the stated remainder.",
+             note="remainder: FFT / compiled-kernel numerics; trusted A1, A2, A3, A5, A7", ref="5 C01"),
  "C04": dict(cat="proof", technique="piecewise-polynomial identity shift(front face kernel)+back face kernel == 0; telescoping criterion on extracted flux increments; stage-by-stage increments of the symbolic step transformer",
              text="Exact conservation form of the ENO3 face kernels for every axis, dimension and upwind branch; zero coefficient sums of every linear flux (diffusion, curl-type updates, filters); every stage of the conserved field in every simulator configuration is prev + conservative/telescoping increment with homogeneous boundary pieces. Polynomial identities over Q: all field values, grid sizes and sign patterns at once.",
              note="exact arithmetic (rounding excluded, as the property states); trusted A1, A2, A7", ref="5 C04"),
@@ -14,12 +17,21 @@ CLAIMED = {
  "C12": dict(cat="proof", technique="composition of extracted stencils as polynomial substitution; normal form of the difference must be 0",
              text="div curl = 0, div(update-id) = 0, 2D div(curl psi) = 0, curl curl psi = wide negative Laplacian, update_from_forcing = id + library curl, penalised update = forcing update of the difference; monitor binding and write set from the simulator trace.",
              note="exact arithmetic at cells whose stencils do not touch the ring; trusted A1, A2, A7", ref="5 C12"),
+ "C14": dict(cat="other", technique="sibling agreement under the grid symmetry group: generators applied to the cells (boxes, offsets, components, index and size symbols) of every stage definition and kernel summary; piecewise equality modulo ties",
+             text="Every stage of the simulator step in the analysed configurations, and every axis-structured public kernel, is equivariant under axis transposition / cyclic permutation / mirrors with the proper (pseudo)tensor signs; boundary cells are compared under the property's proviso (fields vanish within reach of the boundary).",
+             note="equivariance of FFTW/LAPACK trusted (A3/A5); Poisson-kernel isotropy belongs to C03/C11", ref="5 C14"),
  "C15": dict(cat="other", technique="per-stencil dependence rule on extracted IR; per-launch may-alias analysis of resolved array bindings over all op traces; AST rule for serial numba accumulation",
              text="Exactly the statement: (a) every stencil reads the fields it writes at the written cell only, (b) in every kernel launch of every generator/simulator/solver/coupling trace no written argument may-aliases a neighbour-read or differently indexed argument, (c) spreading loops are serial. Thread count and iteration order are then irrelevant.",
              note="trusted A1, A3 (overlap-safe numpy slice assignment), A4 (numba serial order), A7, A8; all 63 stencil definitions must be reached (else exit 2)", ref="5 C15"),
+ "C16": dict(cat="other", technique="abstract evaluation of compute_stable_timestep; sign analysis of rational functions over positive symbols; weights of the extracted diffusion update",
+             text="The returned step is min(advective, diffusive) * prefactor, positive and finite; dt*V/dx - cfl <= 0 and nu*dt/dx^2 - 0.9/(2 dim) <= 0 as sign facts for all positive parameters and V >= 0; V is the grid maximum of sum_c |u_c|; with p <= 0.9/(2 dim) the diffusion update is a convex average with centre weight >= 0.1 and the ring is unchanged.",
+             note="nu = 0 is outside (remainder); trusted A2, A3, A7", ref="5 C16"),
  "C18": dict(cat="other", technique="region-precise liveness/dependence analysis by symbolic store execution of every step/interaction trace; structured dominance rules and an idiom table on the restart helper",
              text="No hidden state: the transitive roots of every public output after a step/interaction are public state or arrays the step never writes (scratch buffers are fully overwritten before they are read, with Interior(g)+ring coverage decided by the region algebra); only `time` is assigned; restart helper picks the largest index, raises on no checkpoint / time mismatch before use, returns the checkpoint time.",
              note="remainder: PyElastica's own load_state and h5py; IO round trip is C17; trusted A1, A3, A4, A5, A7", ref="5 C18"),
+ "C19": dict(cat="other", technique="sign analysis of extracted rational forms; ordered-region decomposition of the extracted piecewise Heaviside with closed-form derivative and parity; per-layer evaluation of extracted zone factors; Chebyshev conversion of extracted filter composites to Fourier multipliers; dependence roots for buffer independence",
+             text="Brinkmann (2D/3D/fixed value/Lagrangian): convex combination, identity at zero indicator, target in the large-penalty limit; Heaviside: 0/blend/1 regions at +-w, exact endpoint values, non-decreasing, H(phi)+H(-phi)=1; zone damping widths 0..6: untouched outside, inner-edge value times sin(pi r), 0<=r<1/2, outermost ring 0; filters orders 1..5 both types: multiplier 1-(s_x s_y s_z)^n or prod(1-s_a^n) in [0,1], 1 at constants, 0 at the checkerboard, independent of prior buffer contents.",
+             note="real arithmetic (rounding excluded); trusted A1, A2, A4, A7", ref="5 C19"),
  "C20": dict(cat="proof", technique="symbolic execution of the time-step wrappers; Euler operator A extracted from the Euler kernel and composed (A, A^2, A^3); equality of normal forms",
              text="Euler kernels equal field + step*flux(field) with the library's own flux kernels and the unscaled step; SSP-RK3 summary equals (I + A + A^2/2 + A^3/6) omega with A the extracted Euler operator for the same step.",
              note="deep-interior cells (ring handling is C13/C18); trusted A1, A2, A7", ref="5 C20"),
